@@ -1,5 +1,7 @@
 import TaskModel.Sched.MonC02
 import TaskModel.Sched.MonC03
+import TaskModel.Sched.MonC07
+import TaskModel.Sched.MonC13
 /-!
 Sched.Verdicts — `monitorVerdicts` with the C02 / C03 fields computed by the state-machine
 monitors whose soundness `Props/C02.lean` (`C02_seq_all`) and `Props/C03.lean`
@@ -28,8 +30,10 @@ def monitorVerdicts2 (P : Program) (F : Flags) (_calls : List Nat) (tr : List La
   let c02 := seqMonAll tr
   let c03 := failStopMonAll P tr
   let c06 := regOnce tr []
-  let c07 := match F.cap with | some n => boundOk n tr 0 | none => true
-  let c13 := guardedNoCmd P F tr
+  let c07 := (match F.cap with | some n => boundOk n tr 0 | none => true) &&
+    ids.all (fun a => (S7.holdMon.run S7.holdMon.init (evsOf a tr)).isSome)
+  let c13 := guardedNoCmd P F tr &&
+    ids.all (fun a => ((S7.noCmdMon P F).run (S7.noCmdMon P F).init (evsOf a tr)).isSome)
   let c14 := ids.all (fun a => (deferOrderMon.run deferOrderMon.init (evsOf a tr)).isSome)
   s!"C01={b c01} C02={b c02} C03={b c03} C06={b c06} C07={b c07} C13={b c13} C14={b c14}"
 
